@@ -91,7 +91,9 @@ template <class F> int run(int argc, char **argv, F &&on_line) {
 }
 } // namespace vlog
 // default (no-op) sink of the IGRIS_VERIF_POINT hooks; drv_sync.cpp overrides it
+#ifndef VLOG_OWN_HOOK_SINK
 extern "C" __attribute__((weak)) void igris_verif_point(const char *, const void *, long) {}
+#endif
 // called by the ASan / UBSan runtime before it reports and dies
 extern "C" void __asan_on_error() { vlog::flush(); }
 extern "C" void __ubsan_on_report() { vlog::flush(); }
